@@ -1006,7 +1006,9 @@ func (e *Enc) execSelect(in *ssa.Select) {
 		}
 	}
 	e.vals[in] = Val{Tup: tup}
-	e.applyAts("select", "", in.Pos(), nil, nil)
+	e.atResTypes = []types.Type{types.Typ[types.Int], types.Typ[types.Bool]}
+	e.applyAts("select", "", in.Pos(), nil, tup[:2])
+	e.atResTypes = nil
 }
 
 func (e *Enc) execRecv(in *ssa.UnOp) {
@@ -1339,7 +1341,9 @@ func (e *Enc) execNext(in *ssa.Next) {
 		_ = kT
 	}
 	e.vals[in] = Val{Tup: []Val{{T: ok}, kv, vv}}
-	e.applyAts("next", "", in.Pos(), nil, nil)
+	e.atResTypes = []types.Type{types.Typ[types.Bool], kT, vT}
+	e.applyAts("next", "", in.Pos(), nil, []Val{{T: ok}, kv, vv})
+	e.atResTypes = nil
 }
 
 func sortedKeys(m map[string]bool) []string {
